@@ -21,7 +21,7 @@ func init() {
 
 func r20_1(c *Ctx, r *Report) {
 	const rule = "R20.1"
-	r.rule(rule, "Zodiac partition (complete for this function). The if-chain of GetXingZuo is read as index -> set of month*100+day codes by path enumeration with interval constraints; over the 366 valid codes each has exactly one sign, each sign is one cyclically contiguous run, the runs appear in XINGZUO order and start on 3/21, 4/20, 5/21, 6/22, 7/23, 8/23, 9/23, 10/24, 11/23, 12/22, 1/20, 2/19; the function reads only month and day of its receiver.")
+	r.rule(rule, "Zodiac partition (complete for this function). GetXingZuo is followed by the evaluator for each of the 366 valid month-day codes (whatever its form: a chain of comparisons, a switch, a local table of start days walked by a loop), the sign being the position of the returned name in SolarUtil.XINGZUO; over the 366 codes each has exactly one sign, each sign is one cyclically contiguous run, the runs appear in XINGZUO order and start on 3/21, 4/20, 5/21, 6/22, 7/23, 8/23, 9/23, 10/24, 11/23, 12/22, 1/20, 2/19; the function reads only month and day of its receiver.")
 	fn := c.Fn(r, rule, "calendar.(*Solar).GetXingZuo")
 	if fn == nil {
 		return
@@ -29,23 +29,10 @@ func r20_1(c *Ctx, r *Report) {
 	reads := c.eff.Of(fn).paramReads(0)
 	sort.Strings(reads)
 	r.check(equalStrs(reads, []string{".day", ".month"}), rule, "calendar.(*Solar).GetXingZuo reads only month and day", c.fnPos(fn), "receiver fields read: "+strings.Join(reads, " "))
-	paths, ok := enumPaths(fn.Blocks[0], nil, 20000)
 	construct := "calendar.(*Solar).GetXingZuo partitions the year into the twelve signs"
-	if !ok {
-		r.bad(rule, construct, c.fnPos(fn), "not loop-free (undecided = fail)")
-		return
-	}
-	// every XINGZUO[index] lookup; the one on the taken path gives the sign
-	var lookups []*ssa.IndexAddr
-	for _, b := range fn.Blocks {
-		for _, ins := range b.Instrs {
-			if ia, ok := ins.(*ssa.IndexAddr); ok && isLoadOfTable(ia.X, "SolarUtil.XINGZUO") {
-				lookups = append(lookups, ia)
-			}
-		}
-	}
-	if len(lookups) == 0 {
-		r.bad(rule, construct, c.fnPos(fn), "no lookup XINGZUO[index] found (undecided = fail)")
+	names := c.tabStrs(r, rule, "SolarUtil", "XINGZUO")
+	if len(names) != 12 || len(fn.Params) != 1 {
+		r.bad(rule, construct, c.fnPos(fn), "SolarUtil.XINGZUO does not have twelve entries (undecided = fail)")
 		return
 	}
 	dim := []int{31, 29, 31, 30, 31, 30, 31, 31, 30, 31, 30, 31}
@@ -53,45 +40,36 @@ func r20_1(c *Ctx, r *Report) {
 	var problems []string
 	for m := 1; m <= 12 && len(problems) < 8; m++ {
 		for d := 1; d <= dim[m-1] && len(problems) < 8; d++ {
-			leaf := func(v ssa.Value) (interface{}, bool) {
-				if recv, f, ok := getterField(c, v); ok && recv == ssa.Value(fn.Params[0]) {
-					switch f {
-					case "Solar.month":
-						return int64(m), true
-					case "Solar.day":
-						return int64(d), true
+			leaf := func(fr *evalFrame, v ssa.Value) (interface{}, bool) {
+				if rc, f, ok := getterField(c, v); ok {
+					if ofr, o := fr.origin(rc); ofr.parent == nil && o == ssa.Value(fn.Params[0]) {
+						switch f {
+						case "Solar.month":
+							return int64(m), true
+						case "Solar.day":
+							return int64(d), true
+						}
 					}
 				}
 				return nil, false
 			}
-			fp, msg := feasiblePaths(paths, leaf)
-			if msg != "" {
-				problems = append(problems, msg)
+			ev := &evaluator{leaf: leaf, inline: inlineLibrary}
+			res, outcome := ev.run(fn, nil, nil, nil, nil)
+			if outcome != "return" || len(res) != 1 {
+				problems = append(problems, fmt.Sprintf("%d-%d: the function could not be followed: %s %s", m, d, outcome, ev.fail))
 				continue
 			}
-			if len(fp) != 1 {
-				problems = append(problems, fmt.Sprintf("%d-%d selects %d paths", m, d, len(fp)))
-				continue
-			}
-			var used []*ssa.IndexAddr
-			for _, ia := range lookups {
-				for _, b := range fp[0].blocks {
-					if b == ia.Block() {
-						used = append(used, ia)
-					}
+			idx := -1
+			for i, nm := range names {
+				if res[0] == interface{}(nm) {
+					idx = i
 				}
 			}
-			if len(used) != 1 {
-				problems = append(problems, fmt.Sprintf("%d-%d passes %d XINGZUO lookups", m, d, len(used)))
+			if idx < 0 {
+				problems = append(problems, fmt.Sprintf("%d-%d: the result %v is not a name of SolarUtil.XINGZUO", m, d, res[0]))
 				continue
 			}
-			k, ok := evalSSA(fp[0], used[0].Index, leaf, 0)
-			ki, isI := k.(int64)
-			if !ok || !isI {
-				problems = append(problems, "sign index is not evaluable on some path")
-				continue
-			}
-			sign[m*100+d] = int(ki)
+			sign[m*100+d] = idx
 		}
 	}
 	if len(problems) > 0 {
@@ -130,7 +108,7 @@ func r20_1(c *Ctx, r *Report) {
 		}
 		_ = i
 	}
-	r.check(len(bad) == 0 && len(order) == 366, rule, construct, c.fnPos(fn), fmt.Sprintf("366 month-day codes over %d paths; deviations: %v", len(paths), headList(bad, 5)))
+	r.check(len(bad) == 0 && len(order) == 366, rule, construct, c.fnPos(fn), fmt.Sprintf("366 month-day codes followed; deviations: %v", headList(bad, 5)))
 	if xs := c.tabStrs(r, rule, "SolarUtil", "XINGZUO"); xs != nil {
 		d, e := distinctNonEmpty(xs)
 		r.check(len(xs) == 12 && len(d) == 0 && e == 0, rule, "SolarUtil.XINGZUO has twelve distinct names", c.pos(c.tables.pos("SolarUtil", "XINGZUO")), strings.Join(xs, " "))
@@ -205,7 +183,7 @@ func evalNumExpr(v ssa.Value, leaf func(ssa.Value) (float64, bool), depth int) (
 
 func r20_2(c *Ctx, r *Report) {
 	const rule = "R20.2"
-	r.rule(rule, "Festival keys. In Solar.GetFestivals every lookup in SolarUtil.FESTIVAL uses a key composed as month-day of the receiver, and the lookups in SolarUtil.WEEK_FESTIVAL use month-occurrence-weekday and month-0-weekday, whatever way the key is composed (Sprintf with plain %d verbs, strconv.Itoa and concatenation are read as templates); the occurrence expression equals ceil(day/7) for every day 1..31, the weekday is the receiver's own GetWeek, and the month-0-weekday lookup is reached exactly when day + 7 > GetDaysOfMonth(own year, own month), decided by evaluating the branch conditions for every day 1..31 and month length 28..31; the key grammars match the tables (R08.7).")
+	r.rule(rule, "Festival keys. In Solar.GetFestivals every lookup in SolarUtil.FESTIVAL uses a key composed as month-day of the receiver, and the lookups in SolarUtil.WEEK_FESTIVAL use month-occurrence-weekday and month-0-weekday, whatever way the key is composed (Sprintf with plain %d verbs, strconv.Itoa and concatenation are read as templates); the occurrence expression equals ceil(day/7) for every day 1..31, the weekday is the receiver's own GetWeek, (when the month-0-weekday lookup is made is decided by R20.4); the key grammars match the tables (R08.7).")
 	fn := c.Fn(r, rule, "calendar.(*Solar).GetFestivals")
 	if fn == nil {
 		return
@@ -286,51 +264,9 @@ func r20_2(c *Ctx, r *Report) {
 	} else {
 		r.bad(rule, "the occurrence index is ceil(day/7)", c.fnPos(fn), "occurrence argument not found (undecided = fail)")
 	}
-	// the last-occurrence lookup is reached iff day + 7 > days of the month
-	construct := "the last-occurrence key is used iff day + 7 > days of the month"
-	paths, okp := enumPaths(fn.Blocks[0], nil, 4096)
-	if !okp || len(last) != 1 {
-		r.bad(rule, construct, c.fnPos(fn), "GetFestivals is not loop-free or has no single month-0-weekday lookup (undecided = fail)")
-		return
-	}
-	var bad []string
-	n := 0
-	for d := int64(1); d <= 31; d++ {
-		for dim := int64(28); dim <= 31; dim++ {
-			if d > dim {
-				continue
-			}
-			leaf := func(v ssa.Value) (interface{}, bool) {
-				if rc, f, ok := getterField(c, v); ok && rc == recv && f == "Solar.day" {
-					return d, true
-				}
-				if call, ok := v.(*ssa.Call); ok && call.Common().StaticCallee() != nil && fname(call.Common().StaticCallee()) == "SolarUtil.GetDaysOfMonth" {
-					if describeArg(c, fn, call.Common().Args[0]) == "p0.year" && describeArg(c, fn, call.Common().Args[1]) == "p0.month" {
-						return dim, true
-					}
-				}
-				return nil, false
-			}
-			cp, _ := consistentPaths(paths, leaf)
-			may, must := false, len(cp) > 0
-			for _, p := range cp {
-				if p.passes(last[0].Block()) {
-					may = true
-				} else {
-					must = false
-				}
-			}
-			n++
-			want := d+7 > dim
-			if want && !must {
-				bad = append(bad, fmt.Sprintf("day %d of a %d-day month: the last-occurrence lookup is not reached", d, dim))
-			}
-			if !want && may {
-				bad = append(bad, fmt.Sprintf("day %d of a %d-day month: the last-occurrence lookup is reached although %d more days of that weekday follow", d, dim, (dim-d)/7))
-			}
-		}
-	}
-	r.check(len(bad) == 0 && n > 100, rule, construct, c.pos(last[0].Pos()), fmt.Sprintf("%d (day, month length) cases over %d paths; deviations: %v", n, len(paths), headList(bad, 4)))
+	// that the last-occurrence lookup is made exactly when day + 7 > days of the month is decided on the lists
+	// themselves by R20.4 (every day x month length, whatever the control flow looks like)
+	_ = last
 }
 
 func r20_3(c *Ctx, r *Report) {
